@@ -32,10 +32,11 @@ META = {
                   "any strict position other than unseal-with-its-key/seq blames with the seal's label; "
                   "`(fun x => F[x]) | forall a. a -> T` blames positively for every strict frame F), "
                   "C11_fundamental / C11_parametric_erasure_partial / C11_parametric_transparent / C11_parametric_(annotation_)"
-                  "same_result(2) (for every term accepted by the syntactic criterion has_ty/passes_only — quantified values only "
+                  "same_result(2) / C11_export_same / C11_parametric_annotation_same_export2 (for every term accepted by the syntactic criterion has_ty/passes_only — quantified values only "
                   "bound, passed, stored in arrays/records, returned, seq'ed — whatever the bare run produces, the run under "
                   "`forall a... . T` produces an outcome related by a seal-erasure relation that is a congruence on closures, "
-                  "arrays and records; equal at base types; callbacks and containers included), C11_tail_guarded / tail_sealed / "
+                  "arrays and records; equal at base types and equal exported data (what `nickel export` prints, values and errors) at "
+                  "first-order result types; callbacks and containers included), C11_tail_guarded / tail_sealed / "
                   "tail_preserved / tail_tampered_blames / excluded_field_blames (record-row tails), "
                   "C11_nested_foralls_have_distinct_keys (higher-rank nesting), and refuted variants (no polarity flip in $func; "
                   "typeof not stopped by a seal) plus the two known key-freshness findings as _refuted lemmas. Tie: the extracted "
